@@ -108,13 +108,22 @@ def phase2(p1, out, workers, only):
         for l in open(out):
             done.add(json.loads(l)['id'])
     q = queue.Queue()
+    byfile = {}
     for l in open(p1):
         m = json.loads(l)
         if m.get('status') != 'survived' or m['id'] in done:
             continue
         if only and m['id'] not in only:
             continue
-        q.put(m)
+        if 'log.Print' in m['from']:
+            continue  # default logging callbacks: no property is about them
+        byfile.setdefault(m['file'], []).append(m)
+    # round-robin over the files so that every file is sampled early
+    while byfile:
+        for f in sorted(byfile):
+            q.put(byfile[f].pop(0))
+            if not byfile[f]:
+                del byfile[f]
     lock = threading.Lock()
     fo = open(out, 'a')
     def work(k):
